@@ -1,6 +1,6 @@
 (* The command interpreter run by the extracted binary and by vm_compute. *)
 From Coq Require Import List NArith ZArith Bool String.
-From PMS Require Import Base.PyStr Base.PyInt Base.Exn Model.Codec Model.ShellBase.
+From PMS Require Import Base.PyStr Base.PyInt Base.Exn Model.Codec Model.ShellBase Model.ShellValidate.
 Import ListNotations.
 Open Scope N_scope.
 
@@ -14,7 +14,7 @@ Definition shell_step (st : shell_state) (line : pstr) : shell_state * pstr :=
   match tokens line with
   | cmd :: args =>
       if pstr_eqb cmd (s2p "reset") then (shell_init, s2p "ok")
-      else (st, first_some [codec_cmd cmd args] bad)
+      else (st, first_some [codec_cmd cmd args; validate_cmd cmd args] bad)
   | [] => (st, bad)
   end.
 
